@@ -254,6 +254,22 @@ func (r *Run) Report(outDir string, known []KnownFinding, info PropInfo, seed in
 		fns = append(fns, f)
 	}
 	sort.Strings(fns)
+	fileSet := map[string]bool{}
+	for _, k := range fns {
+		if f := r.P.Funcs[k]; f != nil {
+			fileSet[strings.SplitN(r.P.Pos(f.Decl.Pos()), ":", 2)[0]] = true
+		}
+	}
+	for _, o := range r.Obls {
+		if o.Site != "-" && o.Site != "" {
+			fileSet[strings.SplitN(o.Site, ":", 2)[0]] = true
+		}
+	}
+	var files []string
+	for f := range fileSet {
+		files = append(files, f)
+	}
+	sort.Strings(files)
 	ev := evidence{
 		PropertyID: r.Prop, Tier: r.Tier, Seed: seed, Level: "other",
 		Coverage: map[string]any{
@@ -265,6 +281,7 @@ func (r *Run) Report(outDir string, known []KnownFinding, info PropInfo, seed in
 			"distinct_nontrivial":    len(distinct),
 			"samples":                samples,
 			"functions_analysed":     fns,
+			"files_analysed":         files,
 			"paths_enumerated":       r.Paths,
 			"rules":                  ruleCounts,
 			"known_findings_matched": matched,
